@@ -147,7 +147,7 @@ def run(prop: str, tier: str, seed: int) -> int:
         for i, sh in enumerate(shard(fam["walk"], 2 if q else 6)):
             units.append({"specs": sh, "engine": eng, "props": [prop], "seed": seed + 17 * i, "gvals": gvals,
                           "with_can": prop == "C02" and eng != "pure", "mc": False, "tlc_workers": 2,
-                          "walks": (len(sh) * (2 if q else 4), 25 if q else 20)})
+                          "walks": (len(sh) * (2 if q else 4), 25 if q else 60)})
     results = run_units(units, NPROC)
     violations: List[dict] = []
     errors: List[str] = []
